@@ -173,6 +173,14 @@ func c03ForIn(w *run.Worker) {
 		func() []*rt.Node {
 			return []*rt.Node{rt.If(rt.Bin("==", Id("w"), rt.Nil()), rt.Block(rt.Call("p", I(1))), rt.Block(rt.Call("p", I(2), Id("w")))), rt.Assign("=", Id("w"), I(5)), rt.Assign("=", Id("w2"), I(6))}
 		},
+		// a for-in over a map inside the loop (the loops keep their own key lists)
+		func() []*rt.Node {
+			return []*rt.Node{rt.ForIn("u", rt.Map(S("x"), I(1), S("y"), I(2)), rt.Block(rt.Call("p", Id("v"), Id("u")))), rt.Call("p", Id("v"))}
+		},
+		// an else branch taken inside the body, then a body-local: gone in the next iteration and after the loop
+		func() []*rt.Node {
+			return []*rt.Node{rt.Call("p", Id("w2")), rt.If(rt.Bool(false), rt.Block(), rt.Block(rt.Assign("=", Id("e1"), I(1)))), rt.Assign("=", Id("w2"), Id("v")), rt.Call("p", Id("e1"))}
+		},
 		func() []*rt.Node { return nil },
 	}
 	for _, it := range c03Iterables() {
@@ -193,7 +201,7 @@ func c03ForIn(w *run.Worker) {
 					rt.Assign("=", Id("lst"), rt.List(I(5), I(6), I(7))),
 					rt.Assign("=", Id("mp"), rt.Map(S("k1"), I(1), S("k2"), I(2))),
 					rt.ForIn(vn, it(), rt.Block(body...)),
-					rt.Call("p", Id("x"), Id(vn), Id("w"), Id("u"), Id("lst")),
+					rt.Call("p", Id("x"), Id(vn), Id("w"), Id("u"), Id("lst"), Id("w2"), Id("e1")),
 				}
 				c03Exec(w, "for-in", stmts)
 			}
